@@ -1,4 +1,4 @@
-import ScVerif.C13.Lemmas
+import ScVerif.C13.Order
 /-!
 # C13 — the in-process wrapper is indistinguishable from a real gRPC connection
 
@@ -41,6 +41,47 @@ theorem C13_transcript_eq_wf (shape : Shape) (out : MD) (ss : List SOp) (fin : F
 example : WFScripts .bidi [.setHeader [("a", "1")], .recv, .send 1, .setTrailer [("b", "2")]] (.status 5 "e0")
     [.send 1, .header, .recv, .recv, .header, .trailer] = true := by
   simp [WFScripts, conforms, clientOps, sync]
+
+/-- **Every call that satisfies the hypothesis completes, and no goroutine is left.** If the scripts fit
+the method's shape and satisfy the synchronisation skeleton `sync` (written without reference to
+either transport), the wrapped call never leaves the rendezvous discipline (`stuck` does not occur:
+no client op blocks forever, `Header()` included) and the handler goroutine — the only goroutine the
+wrapper spawns — has returned or was released by the cancellation when the client script ends
+(`left` does not occur). By `C13_transcript_eq` the same holds for the reference. -/
+theorem C13_no_goroutine_left (shape : Shape) (out : MD) (ss : List SOp) (fin : Fin) (cs : List COp)
+    (h : WFScripts shape ss fin cs = true) :
+    Ev.stuck ∉ (Wrap.run shape out ss fin cs).client ∧ SEv.left ∉ (Wrap.run shape out ss fin cs).server := by
+  have hopen : Wrap.open shape = .ok := by cases shape <;> decide
+  have hs : sync false false false (.running ss) (clientOps shape cs) = true := by
+    simp only [WFScripts, Bool.and_eq_true] at h
+    exact h.2
+  have hc := go_complete Cfg.current fin false false false (.running ss) (clientOps shape cs) {} hs
+    (by intro hh; cases hh)
+  have hc' : (Wrap.run shape out ss fin cs).complete = true := by
+    unfold Wrap.run Wrap.runCfg
+    simp only [hopen]
+    rw [complete_sev _ _ (by simp)]
+    exact hc
+  simpa [Transcript.complete] using hc'
+
+/-- Outside the hypothesis a goroutine really can be left: a handler whose message is never received
+stays blocked in SendMsg (the model says so; gRPC would buffer the message). -/
+example : SEv.left ∈ (Wrap.run .sstream [] [.recv, .send 1] .ok [.send 0, .closeSend]).server := by
+  have hopen : Wrap.open .sstream = .ok := by decide
+  simp only [Wrap.run, Wrap.runCfg, hopen, clientOps]
+  simp [go, sev, cev, leftT]
+
+/-- **Messages in order.** In every run (complete or not) the messages the client received are a prefix
+of the messages the handler script sends, and the messages the handler received are a prefix of the
+messages the client script sends: nothing is lost in the middle, duplicated or reordered. -/
+theorem C13_messages_in_order (shape : Shape) (out : MD) (ss : List SOp) (fin : Fin) (cs : List COp) :
+    (Wrap.run shape out ss fin cs).clientMsgs <+: ss.filterMap SOp.send? ∧
+    (Wrap.run shape out ss fin cs).serverMsgs <+: (clientOps shape cs).filterMap COp.send? := by
+  have hopen : Wrap.open shape = .ok := by cases shape <;> decide
+  have h := go_msgs Cfg.current fin {} false (.running ss) (clientOps shape cs)
+  unfold Wrap.run Wrap.runCfg
+  simp only [hopen]
+  simpa [Transcript.clientMsgs, Transcript.serverMsgs, sev, Srv.ops, List.filterMap_cons, SEv.got?] using h
 
 /-- **Unknown method.** A method name that is neither a unary method nor a stream of the service gives
 Unimplemented, from `NewStream` and from `Invoke`, for any service description. -/
